@@ -1,4 +1,11 @@
-(** * C14 — statements that are FALSE of the faithful model (the two findings of the replay engine) *)
+(** * C14 — statements that were FALSE of the faithful model (the two findings of the replay engine)
+
+    Both defects are repaired in /repo (fix b24f7c9, fix b88fea5; KNOWN_FINDINGS.txt "fixed:").  The transcriptions of
+    the code BEFORE the repairs ([verify_cascading], [typed_event_attrs]) are kept in [Model/MapLoops.v] next to the
+    transcriptions of the repaired code, whose independence is proved in [Props/C14.v]
+    ([eth_seal_in_memory_env_independent], [typed_event_attrs_sorted_order_independent]).  The witness history of the
+    first one (real main-net proof-of-work headers) is case 2 of every run of the replay engine; the seeded reverses
+    C14-revert-fix-tmpdir / C14-revert-fix-eventorder re-exhibit both. *)
 From Coq Require Import List String NArith Bool Permutation.
 From Teleport Require Import Base.Bytes Base.Outcome Model.MapLoops.
 Import ListNotations.
